@@ -113,7 +113,23 @@ class FnQ:
 
     def calls(self, name=None, pred=None, user_only=False):
         if self._calls is None:
-            self._calls = [Call(self, b, t) for b, t in self.fn.body.calls()]
+            # read-only calls inside `debug_assert*!` expansions are diagnostics, not part of the operation (absent from release
+            # builds; listed by the panic census as debug-only sites); a call there that takes `&mut` is kept and judged
+            # (macro arguments keep their call-site spans, so "inside the invocation" is decided by source range)
+            ranges = set()
+            for blk in self.fn.body.blocks:
+                for x in list(blk.stmts) + ([blk.term] if blk.term is not None else []):
+                    sp = getattr(x, "sp", None)
+                    if sp and "debug_assert" in (sp.get("expc") or ""):
+                        ranges.add((sp["file"], sp["line"], sp.get("eline", sp["line"])))
+
+            def diagnostic(t):
+                inside = "debug_assert" in (t.sp.get("expc") or "") or any(
+                    f == t.sp["file"] and lo <= t.sp["line"] and t.sp.get("eline", t.sp["line"]) <= hi for (f, lo, hi) in ranges)
+                if not inside:
+                    return False
+                return not any((a.place is not None and (a.place.ty or "").startswith("&mut ")) for a in t.args)
+            self._calls = [Call(self, b, t) for b, t in self.fn.body.calls() if not diagnostic(t)]
         out = self._calls
         if name is not None:
             names = (name,) if isinstance(name, str) else tuple(name)
